@@ -1,7 +1,8 @@
 """Bounded stand-in / replay vehicle for C10 on the REAL code (GPyRegression + BolfiPosterior of the tree under analysis).
 
 A case is a SCRIPT (JSON-able list of ops) run against one GPyRegression instance:
-  ['new', dim, bounds, max_opt_iters]      GPyRegression(parameter_names, bounds, max_opt_iters=...)
+  ['new', dim, bounds, max_opt_iters, k]   GPyRegression(parameter_names, bounds, max_opt_iters=...); k = None (default kernel) | 'matern'
+                                           (kernel=GPy.kern.Matern32) | 'noise' (noise_var=0.1): the last two must never take the fast path
   ['update', X, Y, optimize]               .update(np.array(X), np.array(Y), optimize)          -> evidence-order check
   ['optimize']                             .optimize()
   ['sampling', flag]                       .is_sampling = flag
@@ -76,7 +77,7 @@ def _check_predict(model, q, after_change):
     ref_m, ref_v = gp.predict(q.reshape((-1, model.input_dim)))
     ref_gm, ref_gv = gp.predictive_gradients(q.reshape((-1, model.input_dim)))
     ref_gm = ref_gm[:, :, 0]
-    tag = 'fast' if model.is_sampling else 'slow'
+    tag = 'fast' if (model.is_sampling and getattr(model, '_kernel_is_default', False)) else ('sampling-non-default-kernel' if model.is_sampling else 'slow')
     try:
         m, v = model.predict(q)
         gm, gv = model.predictive_gradients(q)
@@ -179,9 +180,16 @@ def run_script(script, shim=False, seconds=20):
             for step, op in enumerate(script):
                 k = op[0]
                 if k == 'new':
-                    _, dim, bounds, iters = op
+                    dim, bounds, iters = op[1:4]
+                    kind = op[4] if len(op) > 4 else None
                     names = ['p%d' % i for i in range(dim)]
-                    model = gpr.GPyRegression(parameter_names=names, bounds={n_: tuple(b) for n_, b in zip(names, bounds)}, max_opt_iters=iters)
+                    kw = {}
+                    if kind == 'matern':
+                        import GPy
+                        kw['kernel'] = GPy.kern.Matern32(input_dim=dim)
+                    elif kind == 'noise':
+                        kw['noise_var'] = 0.1
+                    model = gpr.GPyRegression(parameter_names=names, bounds={n_: tuple(b) for n_, b in zip(names, bounds)}, max_opt_iters=iters, **kw)
                     want_X, want_Y = np.zeros((0, dim)), np.zeros((0, 1))
                 elif k == 'update':
                     X, Y = np.array(op[1], dtype=float), np.array(op[2], dtype=float)
@@ -255,13 +263,13 @@ def _queries(rs, dim, bounds, single_row):
     return out
 
 
-def make_script(rs, dim):
+def make_script(rs, dim, kernel=None):
     bounds = [[float(-1 - rs.rand()), float(1 + 2 * rs.rand())] for _ in range(dim)]
     lo = np.array([b[0] for b in bounds])
     hi = np.array([b[1] for b in bounds])
     pts = lambda n: (lo + (hi - lo) * rs.rand(n, dim))
     fy = lambda X: (np.sum((X - 0.2) ** 2, axis=1) + 0.1 * rs.randn(len(X)) + 1.0)
-    script = [['new', dim, bounds, int(rs.randint(2, 6))]]
+    script = [['new', dim, bounds, int(rs.randint(2, 6)), kernel]]
     X = pts(int(rs.randint(3, 9)))
     script.append(['update', X.tolist(), fy(X).tolist(), False])
     h = float(np.percentile(fy(X), 30))
@@ -334,7 +342,7 @@ def run(tier='quick', seed=0, first_failure_only=False):
     for dim in (1, 2, 3):
         for t in range(per_dim):
             rs = np.random.RandomState(1000 * seed + 100 * dim + t)
-            scripts.append(make_script(rs, dim))
+            scripts.append(make_script(rs, dim, kernel=(None if t % 4 != 3 else ('noise' if dim == 2 else 'matern'))))
     for script in scripts:
         f = run_script(script)
         n_checks = sum(1 for op in script if op[0] in ('predict', 'posterior', 'update'))
